@@ -159,11 +159,10 @@ def buildLayers (P : Nat) (cps : List Checkpoint) : List LayerBuilder :=
 def finishLayers : List LayerBuilder → Option Checkpoint → List Bytes
   | [], _ => []
   | l :: ls, p =>
-    let l1 := match p with
-      | none => l
-      | some c => l.push c
-    let (l2, p') := l1.flush
-    l2.buffer :: finishLayers ls p'
+    -- `skip_layer.push(checkpoint)` for the pointer of the layer below, if there is one
+    let l1 : LayerBuilder := { buffer := l.buffer, block := l.block ++ p.toList }
+    let r := l1.flush
+    r.1.buffer :: finishLayers ls r.2
 
 def cumulative : Nat → List Bytes → List Nat
   | _, [] => []
